@@ -175,9 +175,10 @@ def cases(ctx: Ctx):
                                 continue
                             # every sixth case: a time step of half a day (periods of a day and more), periods spelled
                             # as [value, unit] or as an ISO duration
-                            dt = DT * 72 if k % 6 == 1 else DT
+                            halfday = k % 6 == 2 or k % 9 == 0
+                            dt = DT * 72 if halfday else DT
                             resid = 0 if k % 4 else dt // 2
-                            out.append(dict(nsteps=ns, period=p, numrec=nr, layout=layout, rev=rev, pvars=pv, dt=dt, spell=[0, 2, 1][k % 3] if k % 6 == 1 or k % 5 == 0 else 0,
+                            out.append(dict(nsteps=ns, period=p, numrec=nr, layout=layout, rev=rev, pvars=pv, dt=dt, spell=2 if (k % 8 == 2 or k % 18 == 0) else (1 if k % 5 == 0 else 0),
                                             resid=resid, outname=names[k % 3] if nr else "out.nc", late=bool(k % 5 == 3), epoch=bool(k % 7 == 2)))
     return out
 
